@@ -298,6 +298,98 @@ def weight_enumerators(code):
     return a / k**2, b / k
 
 
+# ----------------------------------------------------------------------------------------------- secondary entry points
+def klip(code, op_list):
+    """M[e,i,j] = <c_i| E_e |c_j> for operator sequences E_e = [(qubits, matrix), ...] (applied left to right to the ket)"""
+    code = np.asarray(code, dtype=np.complex128)
+    k = code.shape[0]
+    out = np.zeros((len(op_list), k, k), dtype=np.complex128)
+    cc = code.conj()
+    for e, seq in enumerate(op_list):
+        q1 = code
+        for ind, op in seq:
+            q1 = apply_op(q1, np.asarray(op), list(ind))
+        out[e] = cc @ q1.T
+    return out
+
+
+def klip_bound(code, op_list):
+    """per-sequence a-priori bound |M[e,i,j]| <= max_i|c_i|^2 * prod ||op||_2 (the scale rounding errors are relative to)"""
+    code = np.asarray(code, dtype=np.complex128)
+    r2 = float((np.abs(code)**2).sum(axis=1).max()) if code.size else 0.0
+    out = np.zeros(len(op_list))
+    for e, seq in enumerate(op_list):
+        b = r2
+        for _, op in seq:
+            b *= float(np.linalg.norm(np.asarray(op, dtype=np.complex128), 2))
+        out[e] = b
+    return out
+
+
+def kl_loss(ip, kind):
+    """Knill-Laflamme loss of a stack M[e] of K x K matrices: sum_e [ sum_{i<j} h(|M_ij|) + sum_i h(|M_ii - mean_i M_ii|) ],
+    h(x) = x ('L1') or x^2 ('L2'). Returns (loss, scale) with scale = sum_e sum_ij h(|M_ij|) (what rounding is relative to)."""
+    if kind not in ('L1', 'L2'):
+        raise ValueError(kind)
+    ip = np.asarray(ip, dtype=np.complex128)
+    h = (lambda x: x) if kind == 'L1' else (lambda x: x * x)
+    k = ip.shape[1]
+    loss = 0.0
+    for m in ip:
+        for i in range(k):
+            for j in range(i + 1, k):
+                loss += h(abs(m[i, j]))
+        dg = np.array([m[i, i] for i in range(k)])
+        mean = dg.sum() / k
+        for i in range(k):
+            loss += h(abs(dg[i] - mean))
+    return float(loss), float(h(np.abs(ip)).sum())
+
+
+def split_elements(labels, counts):
+    """all ways to pick disjoint unordered subsets of sizes counts[0], counts[1], ... from `labels` (each subset reported as
+    the tuple of its labels in the order of `labels`), as a list of tuples of tuples"""
+    labels = list(labels)
+    out = []
+
+    def rec(rest, cs, acc):
+        if not cs:
+            out.append(tuple(acc))
+            return
+        for pick in itertools.combinations(range(len(rest)), cs[0]):
+            chosen = tuple(rest[i] for i in pick)
+            left = [x for i, x in enumerate(rest) if i not in pick]
+            rec(left, cs[1:], acc + [chosen])
+
+    rec(labels, list(counts), [])
+    return out
+
+
+_NAME_SYM = re.compile(r'^\(\(\s*([0-9]+)\s*,\s*([0-9]+)\s*,\s*([0-9]+)\s*\)\)$')
+_NAME_ASYM = re.compile(r'^\(\(\s*([0-9]+)\s*,\s*([0-9]+)\s*,\s*de\(([0-9.eE+-]+)\)\s*=\s*([0-9]+)\s*\)\)$')
+
+
+def parse_code_name(text):
+    """'((n,K,d))' -> (n, K, None, d); '((n,K,de(w)=d))' -> (n, K, w, d)"""
+    m = _NAME_SYM.match(text)
+    if m:
+        return int(m.group(1)), int(m.group(2)), None, int(m.group(3))
+    m = _NAME_ASYM.match(text)
+    if m:
+        return int(m.group(1)), int(m.group(2)), float(m.group(3)), int(m.group(4))
+    raise ValueError(f'bad code name {text!r}')
+
+
+def degeneracy_spectrum(state):
+    """eigenvalues (ascending) of the Gram matrix of {E|psi>: E = identity or a weight-1 Pauli}"""
+    state = np.asarray(state, dtype=np.complex128).reshape(-1)
+    n = num_qubit_of(state.shape[0])
+    vecs = [apply_pauli(state, s) for s in paulis_by_weight(n, 0, 1)]
+    v = np.stack(vecs)
+    g = v.conj() @ v.T
+    return np.linalg.eigvalsh((g + g.conj().T) / 2)
+
+
 # ----------------------------------------------------------------------------------------------- self check (import time, cheap)
 def _selfcheck():
     rng = np.random.default_rng(12345)
@@ -328,6 +420,13 @@ def _selfcheck():
     assert listed_letters('X0Y2X3X4') == 'XIYXX' and listed_letters('Z10X0') == 'XIIIIIIIIIZ'
     assert sorted(errors_below_distance(3, 3)) == sorted(s for s in rp.all_letters(3) if 1 <= rp.weight(s) <= 2)
     assert len(paulis_by_weight(8, 1, 2)) == 24 + 252
+    assert parse_code_name('((5,2,3))') == (5, 2, None, 3) and parse_code_name('((6,2,de(1.5)=4))') == (6, 2, 1.5, 4)
+    assert split_elements([0, 1, 2], [1, 1]) == [((0,), (1,)), ((0,), (2,)), ((1,), (0,)), ((1,), (2,)), ((2,), (0,)), ((2,), (1,))]
+    assert len(split_elements(range(5), [2, 0, 1])) == 30
+    m = np.array([[[1, 2j], [3, 5]]], dtype=np.complex128)
+    assert abs(kl_loss(m, 'L1')[0] - (2 + 2 + 2)) < 1e-12 and abs(kl_loss(m, 'L2')[0] - (4 + 4 + 4)) < 1e-12
+    x = np.array([[0, 1], [1, 0]], dtype=np.complex128)
+    assert np.abs(klip(v[:, :4], [[([1], x)], []])[0] - v[:, :4].conj() @ apply_pauli(v[:, :4], 'IX').T).max() < 1e-12
 
 
 _selfcheck()
